@@ -46,6 +46,15 @@ Fixpoint list_set {X} (l : list X) (i : nat) (x : X) : list X :=
 Definition shared_init : shared :=
   mkShared [mkCell (FAddr 0) (FAddr 0) FMissing FMissing] 0 [] [].
 
+(* items sorted by key token (how the harness presents sets of items) *)
+Fixpoint insert_sorted (p : K * V) (l : list (K * V)) : list (K * V) :=
+  match l with
+  | [] => [p]
+  | q :: r => if Nat.leb (fst p) (fst q) then p :: l else q :: insert_sorted p r
+  end.
+Definition sort_items (l : list (K * V)) : list (K * V) := fold_right insert_sorted [] l.
+
+
 (* ---- atomic actions ------------------------------------------------------------ *)
 Inductive act :=
 | AAnchorGet                               (* self._anchor *)
@@ -66,11 +75,12 @@ Inductive act :=
 | ADClear                                  (* super().clear() *)
 | ADLen                                    (* len(self) *)
 | ADHas (k : K)                            (* dict.__contains__(self, k) *)
-| ADEq (l : list (K * V)).                 (* super().__eq__(other) for a plain dict *)
+| ADEq (l : list (K * V))                  (* super().__eq__(other) for a plain dict *)
+| ADItems.                                 (* super().__or__ / __ror__ / __repr__: every item, in one C call *)
 
 Inductive ares :=
 | XUnit | XAddr (a : addr) | XF (x : fval) | XNat (n : nat) | XBool (b : bool)
-| XVal (v : V) | XItem (k : K) (v : V) | XKeyError | XCrash.
+| XVal (v : V) | XItem (k : K) (v : V) | XItems (l : list (K * V)) | XKeyError | XCrash.
 
 (* dict.__eq__(self, other): same size, and every item of self is found in other *)
 Definition dict_eq_items (d : pydict V) (l : list (K * V)) : bool :=
@@ -133,6 +143,7 @@ Definition sem (a : act) (s : shared) : shared * ares :=
   | ADLen => (s, XNat (length (store s)))
   | ADHas k => (s, XBool (d_mem (store s) k))
   | ADEq l => (s, XBool (dict_eq_items (store s) l))
+  | ADItems => (s, XItems (store s))
   end.
 
 (* ---- the statistics counters --------------------------------------------------------------------- *)
@@ -392,6 +403,11 @@ Section Methods.
   Definition m_contains (key : K) : P (res bool) :=
     locked MContains (Act (ADHas key) (fun b => match b with XBool b => Ret (Ok b) | _ => Ret (Raise crash) end)).
 
+  (* c | {}, {} | c, repr(c): one call of the dict's own method under the lock *)
+  Definition m_snapshot (w : snap) : P (res (list (K * V))) :=
+    locked (meth_of (Snapshot w)) (
+      Act ADItems (fun r => match r with XItems l => Ret (Ok (sort_items l)) | _ => Ret (Raise crash) end)).
+
   Definition ret_of {A} (f : A -> rv) (p : P (res A)) : P rv :=
     bind p (fun r => Ret (match r with Ok a => f a | Raise e => RExn e end)).
 
@@ -412,17 +428,11 @@ Section Methods.
     | Copy => ret_of RItems m_copy
     | Len => ret_of RNat m_len
     | Contains k => ret_of RBool (m_contains k)
+    | Snapshot w => ret_of RItems (m_snapshot w)
     end.
 End Methods.
 
 (* ---- views of the shared state (what the public API shows) ------------------------- *)
-Fixpoint insert_sorted (p : K * V) (l : list (K * V)) : list (K * V) :=
-  match l with
-  | [] => [p]
-  | q :: r => if Nat.leb (fst p) (fst q) then p :: l else q :: insert_sorted p r
-  end.
-Definition sort_items (l : list (K * V)) : list (K * V) := fold_right insert_sorted [] l.
-
 Definition view_items (s : shared) : list (K * V) := sort_items (store s).
 Definition view_len (s : shared) : nat := length (store s).
 
